@@ -1,6 +1,9 @@
 package bt
 
-import "encoding/binary"
+import (
+	"encoding/binary"
+	"io"
+)
 
 // ReverseBytes reverses the bytes (little endian/big endian).
 // This is used when computing merkle trees in Bitcoin, for example.
@@ -21,4 +24,36 @@ func LittleEndianBytes(v uint32, l uint32) []byte {
 	binary.LittleEndian.PutUint32(buf, v)
 
 	return buf
+}
+
+// readBytes reads exactly l bytes from r. The length comes from untrusted
+// input, so the buffer grows as data actually arrives instead of being
+// allocated up front from the claimed length.
+func readBytes(r io.Reader, l uint64) ([]byte, int, error) {
+	const chunkSize = 4096
+	if l <= chunkSize {
+		b := make([]byte, l)
+		n, err := io.ReadFull(r, b)
+		return b, n, err
+	}
+
+	b := make([]byte, 0, chunkSize)
+	for uint64(len(b)) < l {
+		if len(b) == cap(b) {
+			b = append(b, 0)[:len(b)] // grow geometrically
+		}
+		want := uint64(cap(b) - len(b))
+		if rem := l - uint64(len(b)); rem < want {
+			want = rem
+		}
+		n, err := io.ReadFull(r, b[len(b):len(b)+int(want)])
+		b = b[:len(b)+n]
+		if err != nil {
+			if err == io.EOF {
+				err = io.ErrUnexpectedEOF
+			}
+			return b, len(b), err
+		}
+	}
+	return b, len(b), nil
 }
